@@ -328,7 +328,8 @@ pub fn offset_probe() -> Result<(), String> {
 }
 
 pub fn run(cfg: &RunCfg) -> CheckReport {
-    if let Err(e) = offset_probe() {
+    // (VERIF_SKIP_CANARY exists only to test the supervisor in main.rs against a tree that aborts)
+    if let Err(e) = if std::env::var("VERIF_SKIP_CANARY").is_ok() { Ok(()) } else { offset_probe() } {
         let mut rep = CheckReport::new("exploration", "canary: ranges far out in the index space, diffed in a child process");
         let mut acc = Acc::default();
         acc.violation(|| (json!({"offset_probe": true}), e));
